@@ -692,6 +692,7 @@ def run(ctx):
     objdir, exe = setup(ctx)
     cases = corpus_cases() + [gen_case(ctx, i) for i in range(ctx.n(260, 2500))]
     terms, kept, eterms, ekept = explore(ctx, objdir, exe, cases, ctx.n(45, 400))
+    ctx.log("explored %d cases (%d end-to-end) on the implementation" % (len(kept), len(ekept)))
     # evaluate in chunks (keeps each vm_compute file moderate); the e2e cases are the first ones
     chunk = 600
     for a in range(0, max(len(terms), 1), chunk):
